@@ -76,12 +76,15 @@ type vfC16Model struct {
 	srvDownLeft int // attempts that will still find the server down (then the harness restarts it)
 	reconnects  int
 	losses      int
+	// kickPending: the server will close the connection as soon as it relays the next byte/datagram of it, i.e.
+	// during or right after the next successful call; until then the connection still works
+	kickPending bool
 }
 
 // beforeAttempt: the harness brings the server back once the scripted number of attempts failed.
 func (m *vfC16Model) maybeRestart(t *testing.T) {
 	if m.srvDownLeft <= 0 {
-		if err := m.e.startServer(); err != nil {
+		if err := m.e.startServer(true); err != nil {
 			t.Fatalf("harness: restart server: %v", err)
 		}
 	}
@@ -229,10 +232,14 @@ func (m *vfC16Model) doCall(t *testing.T, kind string) {
 		case vfC16ClsClosed:
 			e.k.Count("ev_loss_reported_as_closed_error", 1)
 			m.conn = vfC16None
+			m.kickPending = false
 			m.losses++
 			e.release(0)
 		case vfC16ClsOK:
-			if kind == "udp" {
+			if m.kickPending {
+				m.kickPending = false // this call's traffic triggers the kick; the connection is gone after the settle
+				e.k.Count("obs_call_ok_before_server_kick", 1)
+			} else if kind == "udp" {
 				e.k.Count("obs_udp_ok_on_dying_connection", 1) // UDP() is local: legitimate until QUIC notices
 			} else {
 				e.k.Inconclusive(fmt.Sprintf("%s: %s succeeded on a killed connection (harness kill ineffective)", e.caseID, what))
@@ -287,14 +294,22 @@ func (m *vfC16Model) doKill(t *testing.T, s vfC16Step) {
 		if s.Kill == "blackhole_wait" {
 			time.Sleep(45 * time.Second) // virtual: QUIC's 30 s idle timeout has fired
 		}
-	case "srv_restart":
+	case "srv_restart", "srv_restart_reset":
+		// srv_restart: the new instance has a fresh stateless-reset key (the old connection dies by idle timeout);
+		// srv_restart_reset: same address AND same key: the next packet of the old connection is answered with a
+		// valid stateless reset.
 		e.stopServer()
-		if err := e.startServer(); err != nil {
+		if err := e.startServer(s.Kill == "srv_restart_reset"); err != nil {
 			t.Fatalf("harness: restart: %v", err)
 		}
-		e.k.Count("ev_kill_srv_restart", 1)
+		e.k.Count("ev_kill_"+s.Kill, 1)
 		if m.conn == vfC16Live {
 			m.conn = vfC16Dying
+		}
+	case "srv_kick":
+		if m.conn == vfC16Live && !m.closed && e.kickCur() {
+			m.conn = vfC16Dying
+			m.kickPending = true
 		}
 	case "srv_down":
 		e.stopServer()
@@ -366,7 +381,11 @@ func vfC16RunCaseBody(t *testing.T, k *vfKit, c vfC16Case) {
 		if c.RealTime {
 			lat = 200 * time.Microsecond
 		}
-		e, err := vfC16NewEnv(k, c.CaseID, c, lat, c.MaxStreams, !c.RealTime)
+		useTraffic := false
+		for _, st := range c.Steps {
+			useTraffic = useTraffic || (st.Op == "kill" && st.Kill == "srv_kick")
+		}
+		e, err := vfC16NewEnv(k, c.CaseID, c, lat, c.MaxStreams, !c.RealTime, useTraffic)
 		if err != nil {
 			t.Fatalf("harness: world: %v", err)
 		}
@@ -465,6 +484,10 @@ var vfC16Faults = []vfC16Fault{
 	{"blackhole-wait", "blackhole_wait", "", 0},
 	{"sockerr", "sockerr", "", 0},
 	{"srv-restart", "srv_restart", "", 0},
+	{"srv-restart-reset", "srv_restart_reset", "", 0},
+	{"srv-restart-reset+cfgerr-1", "srv_restart_reset", "cfgerr", 1},
+	{"srv-kick", "srv_kick", "", 0},
+	{"sockerr+tlsbad-1", "sockerr", "tlsbad", 1},
 	{"srv-down-1", "srv_down", "", 1},
 	{"srv-down-2", "srv_down", "", 2},
 	{"sockerr+cfgerr-1", "sockerr", "cfgerr", 1},
@@ -584,7 +607,7 @@ func vfC16GenRandom(k *vfKit, id string) vfC16Case {
 		c.MaxStreams = 8
 	}
 	if r.Intn(8) == 0 {
-		c.InitFail = []string{"cfgerr", "facerr", "srv_down"}[r.Intn(3)]
+		c.InitFail = []string{"cfgerr", "facerr", "tlsbad", "srv_down"}[r.Intn(4)]
 		c.InitFailN = 1 + r.Intn(2)
 	}
 	n := 6 + r.Intn(15)
@@ -592,8 +615,8 @@ func vfC16GenRandom(k *vfKit, id string) vfC16Case {
 	if r.Intn(3) > 0 {
 		closeAt = r.Intn(n)
 	}
-	kills := []string{"blackhole", "blackhole_wait", "sockerr", "srv_restart", "srv_down"}
-	fails := []string{"", "", "cfgerr", "facerr"} // authbad: real-time parts only (see vfC16Case.RealTime)
+	kills := []string{"blackhole", "blackhole_wait", "sockerr", "srv_restart", "srv_restart_reset", "srv_restart_reset", "srv_kick", "srv_down"}
+	fails := []string{"", "", "cfgerr", "facerr", "tlsbad"} // authbad: real-time parts only (see vfC16Case.RealTime)
 	for i := 0; i < n; i++ {
 		if i == closeAt {
 			c.Steps = append(c.Steps, vfC16Step{Op: "close"})
@@ -777,7 +800,7 @@ func vfC16GenConc(k *vfKit, id string) vfC16ConcCase {
 }
 
 func vfC16RunConc(t *testing.T, k *vfKit, c vfC16ConcCase) {
-	e, err := vfC16NewEnv(k, c.CaseID, c, 200*time.Microsecond, c.MaxStreams, false)
+	e, err := vfC16NewEnv(k, c.CaseID, c, 200*time.Microsecond, c.MaxStreams, false, false)
 	if err != nil {
 		t.Fatalf("harness: world: %v", err)
 	}
